@@ -141,6 +141,60 @@ class Class:
 _TREES = {}
 
 
+def _pure_prefix(e):
+    """evaluating e has no effect and cannot observe one: names, constants, attribute chains of names"""
+    while isinstance(e, ast.Attribute):
+        e = e.value
+    return isinstance(e, (ast.Name, ast.Constant))
+
+
+def _first_evaluated(e, name):
+    """True if the single load of `name` inside expression e happens before anything with an effect is evaluated and is
+    evaluated unconditionally exactly once (so its defining expression may take its place)"""
+    if isinstance(e, ast.Name):
+        return e.id == name
+    if isinstance(e, ast.Call):
+        parts = [e.func] + list(e.args) + [k.value for k in e.keywords]
+        if any(isinstance(a, ast.Starred) for a in e.args):
+            return False
+    elif isinstance(e, ast.Attribute):
+        parts = [e.value]
+    elif isinstance(e, ast.Subscript):
+        parts = [e.value, e.slice]
+    elif isinstance(e, ast.BinOp):
+        parts = [e.left, e.right]
+    elif isinstance(e, ast.UnaryOp):
+        parts = [e.operand]
+    elif isinstance(e, ast.Compare):
+        if len(e.ops) != 1:
+            return False
+        parts = [e.left, e.comparators[0]]
+    elif isinstance(e, (ast.Tuple, ast.List, ast.Set)):
+        parts = list(e.elts)
+    elif isinstance(e, ast.BoolOp):
+        parts = [e.values[0]]  # later operands are conditional
+    elif isinstance(e, ast.IfExp):
+        parts = [e.test]
+    elif isinstance(e, ast.JoinedStr):
+        parts = [v.value for v in e.values if isinstance(v, ast.FormattedValue)]
+    else:
+        return False
+    for part in parts:
+        if any(isinstance(n, ast.Name) and n.id == name for n in ast.walk(part)):
+            return _first_evaluated(part, name)
+        if not _pure_prefix(part):
+            return False
+    return False
+
+
+def _subst_name(e, name, value):
+    class T(ast.NodeTransformer):
+        def visit_Name(self, node):
+            return value if node.id == name and isinstance(node.ctx, ast.Load) else node
+
+    return T().visit(e)
+
+
 def _collapse_temps(tree):
     """behaviour-preserving normal form applied to every parsed module: a local that is assigned once and read once, by
     the very next statement, as its returned value / test / assigned value is substituted into that statement
@@ -168,6 +222,23 @@ def _collapse_temps(tree):
         i = 0
         while i < len(body):
             s = body[i]
+            # if T: x = A  else: x = B    ->    x = A if T else B      (same evaluation order, one binding of x)
+            if (
+                isinstance(s, ast.If)
+                and len(s.body) == 1
+                and len(s.orelse) == 1
+                and all(isinstance(b, ast.Assign) and len(b.targets) == 1 and isinstance(b.targets[0], ast.Name) for b in (s.body[0], s.orelse[0]))
+                and s.body[0].targets[0].id == s.orelse[0].targets[0].id
+            ):
+                s = body[i] = ast.copy_location(
+                    ast.Assign(
+                        targets=[s.body[0].targets[0]],
+                        value=ast.copy_location(ast.IfExp(test=s.test, body=s.body[0].value, orelse=s.orelse[0].value), s),
+                        lineno=s.lineno,
+                    ),
+                    s,
+                )
+                ast.fix_missing_locations(s)
             nxt = body[i + 1] if i + 1 < len(body) else None
             if (
                 nxt is not None
@@ -197,6 +268,27 @@ def _collapse_temps(tree):
                     done = True
                 elif isinstance(nxt, ast.Expr) and is_t(nxt.value):
                     nxt.value = s.value
+                    done = True
+                elif (
+                    isinstance(nxt, (ast.Return, ast.Expr, ast.Assign))
+                    and nxt.value is not None
+                    and _first_evaluated(nxt.value, t)
+                    and (
+                        # a choice between two values stays a named local (rules split paths at `x = A if c else B`)
+                        # unless it only selects the receiver of the next call: (a if c else b).append(v)
+                        not isinstance(s.value, ast.IfExp)
+                        or (
+                            isinstance(nxt, ast.Expr)
+                            and isinstance(nxt.value, ast.Call)
+                            and isinstance(nxt.value.func, ast.Attribute)
+                            and is_t(nxt.value.func.value)
+                        )
+                    )
+                ):
+                    # the temporary is the first thing the next statement evaluates (only names / constants / attribute
+                    # chains come before it, and it is not under a short-circuit or deferred context):
+                    #     snapshot = list(xs); return iter(snapshot)   ->   return iter(list(xs))
+                    nxt.value = _subst_name(nxt.value, t, s.value)
                     done = True
                 if done:
                     i += 1
@@ -303,7 +395,103 @@ class Program:
                     self.modules[name] = Module(name, path, rel, src)
                 except SyntaxError as e:
                     raise AnalysisError(f'cannot parse {rel}: {e}') from e
+        self._index_all()
+        if self._dissolve_helpers():
+            self._index_all()
+
+    def _dissolve_helpers(self):
+        """behaviour-preserving normal form of the whole program: a helper that did not exist when the rules were written
+        (not in sa/baseline_funcs.txt) and is called directly from the same module is spliced into its callers
+        (sa/inline.py); when no reference to it is left anywhere its definition is dropped.  'Extract function' /
+        'split function' refactorings of an anchored function therefore leave what every rule sees unchanged, and a new
+        helper that misbehaves is seen where it is called.  Returns True if a tree was changed (re-index needed)."""
+        import copy
+
+        from .inline import baseline, inlined
+
+        if os.environ.get('VERIF_NO_DISSOLVE'):
+            return False
+        new = [f for q, f in self.funcs.items() if q not in baseline() and f.parent is None]
+        if not new:
+            return False
+        mods = {f.module.name for f in new}
+        changed = False
+        plans = {}  # module name -> [(name of the def, lineno, new body)]
+        spliced = set()  # helpers that were spliced into a caller at least once
+        for q, f in list(self.funcs.items()):
+            if f.parent is not None or f.module.name not in mods:
+                continue
+            try:
+                # predicate helpers with several statements that are called inside a test stay functions: the rules
+                # that meet them evaluate them as predicates
+                f2 = inlined(self, f, 2, hoist=False)
+            except RecursionError:
+                continue
+            if getattr(f2, 'inlined_from', None):
+                spliced.update(f2.inlined_from)
+                plans.setdefault(f.module.name, []).append((f.node.name, f.node.lineno, f2.node.body))
+        if not plans:
+            self._inline_cache = {}
+            return False
+        for mname, items in plans.items():
+            m = self.modules[mname]
+            tree = copy.deepcopy(m.tree)
+            defs = {(n.name, n.lineno): n for n in ast.walk(tree) if isinstance(n, (ast.FunctionDef, ast.AsyncFunctionDef))}
+            for name, lineno, body in items:
+                d = defs.get((name, lineno))
+                if d is not None:
+                    d.body = body
+                    changed = True
+            m.tree = tree
+        if not changed:
+            self._inline_cache = {}
+            return False
+        # drop the definitions nothing refers to any more
+        for f in new:
+            if f.qname not in spliced:
+                continue  # never called directly (a callback named in state.dot, an entry point): stays as it is
+            m = self.modules[f.module.name]
+            name = f.node.name
+            own = None
+            for n in ast.walk(m.tree):
+                if isinstance(n, (ast.FunctionDef, ast.AsyncFunctionDef)) and n.name == name and n.lineno == f.node.lineno:
+                    own = n
+            if own is None:
+                continue
+            inside = {id(x) for x in ast.walk(own)}
+            used = False
+            for m2 in self.modules.values():
+                for n in ast.walk(m2.tree):
+                    if id(n) in inside:
+                        continue
+                    if (isinstance(n, ast.Name) and n.id == name) or (isinstance(n, ast.Attribute) and n.attr == name):
+                        used = True
+                        break
+                    if isinstance(n, ast.Constant) and isinstance(n.value, str) and n.value == name:
+                        used = True  # getattr(obj, 'name') / __all__
+                        break
+                if used:
+                    break
+            if used:
+                continue
+            for n in ast.walk(m.tree):
+                body = getattr(n, 'body', None)
+                if isinstance(body, list) and own in body:
+                    body.remove(own)
+                    if not body:
+                        body.append(ast.Pass())
+                    self.dissolved = getattr(self, 'dissolved', []) + [f.qname]
+                    break
         for m in self.modules.values():
+            ast.fix_missing_locations(m.tree)
+        self._inline_cache = {}
+        return True
+
+    def _index_all(self):
+        self.funcs = {}
+        self.classes = {}
+        for m in self.modules.values():
+            m.imports, m.globals, m.funcs, m.classes = {}, {}, {}, {}
             self._index(m)
         for c in self.classes.values():
             c.bases = [self.resolve_expr(b, c.module) for b in c.node.bases]
@@ -613,6 +801,12 @@ class Program:
                 and self.resolve_in(fn.value.func, func) == 'dawgie.db._db_in_use'
             ):
                 return 'dbimpl:' + fn.attr
+            # Class(...).method(...)  -> the method of that class
+            if isinstance(fn, ast.Attribute) and isinstance(fn.value, ast.Call) and isinstance(fn.value.func, (ast.Name, ast.Attribute)):
+                c = self.resolve_in(fn.value.func, func, local)
+                if c in self.classes:
+                    m = self.method(c, fn.attr)
+                    return m.qname if m is not None else c + '.' + fn.attr
             return None
         return r
 
